@@ -123,6 +123,9 @@ func runC05(c *Check) {
 	c.keptSetUse()
 	c.residualFlag()
 	c.stickyEdgeFlags()
+	c.cutoffIsStrict()
+	c.detachIsUnconditional()
+	c.keptSetForwarded()
 }
 
 // stickyEdgeFlags (R7): the marks of an edge that already exists only move one way when
